@@ -293,7 +293,11 @@ class Gen:
                 name, pat, rep = r
                 if isinstance(pat, str):
                     pat = re.compile(pat, re.S)
-            new, n = pat.subn(rep, txt)
+            def _pad(m, rep=rep):
+                out = m.expand(rep) if isinstance(rep, str) else rep(m)
+                lost = m.group(0).count("\n") - out.count("\n")
+                return out + ("\n" * lost if lost > 0 else "")
+            new, n = pat.subn(_pad, txt)
             if n:
                 self.fired[name] = self.fired.get(name, 0) + n
                 txt = new
@@ -372,13 +376,31 @@ class Gen:
         inserts.sort(key=lambda x: x[0])
         pos = it.body_open
         rules = spec.get("rewrites", ())
+        pieces = []
         for p, txt, origin in inserts:
-            seg = blank_comments(src, pos, p, drops)
-            self.raw_nonl(self._rewrite(seg, rules), (src.rel, src.line_of(pos)))
-            self.raw_nonl(txt, origin)
+            pieces.append((blank_comments(src, pos, p, drops), (src.rel, src.line_of(pos))))
+            pieces.append((txt, origin))
             pos = p
-        seg = blank_comments(src, pos, it.end, drops)
-        self.raw(self._rewrite(seg, rules), (src.rel, src.line_of(pos)))
+        pieces.append((blank_comments(src, pos, it.end, drops), (src.rel, src.line_of(pos))))
+        # per-line origins of the assembled body, then the rewrite rules on the whole body (newline count preserved)
+        origins, cur = [], None
+        for txt, origin in pieces:
+            parts = txt.split("\n")
+            for i, part in enumerate(parts):
+                if i > 0:
+                    origins.append(cur)
+                    cur = None
+                if part.strip() and cur is None and origin is not None:
+                    cur = origin if origin[0] == "spec" else (origin[0], origin[1] + i)
+        origins.append(cur)
+        body = "".join(t for t, _ in pieces)
+        body2 = self._rewrite(body, rules)
+        if body2.count("\n") != body.count("\n"):
+            origins = origins + [None] * (body2.count("\n") - body.count("\n"))
+        if not body2.endswith("\n"):
+            body2 += "\n"
+            origins.append(None)
+        self.chunks.append((body2, ("lines", origins)))
         self.raw(f"// @endfn {key}")
         self.functions.append({"key": key, "mode": mode, "props": spec.get("props", []),
                                "file": src.rel, "line": start_line,
@@ -436,6 +458,10 @@ class Gen:
                 if i > 0:
                     linemap.append(line_origin)
                     line_origin = None
+                if origin is not None and origin[0] == "lines":
+                    if p.strip() and line_origin is None and i < len(origin[1]):
+                        line_origin = origin[1][i]
+                    continue
                 if p.strip() and line_origin is None:
                     if origin is None:
                         line_origin = None
